@@ -422,6 +422,172 @@ def rule_R19_enumerate(text, log):
         out = out[:mm.start()] + new + out[cb + 1:]
 
 
+def _recv_start(out, mask, dot):
+    """start offset of the maximal receiver expression that ends just before offset `dot` (a `.`):
+    identifiers, field accesses, `::` paths, call/index groups and whitespace between them"""
+    j = dot
+    while True:
+        k = j - 1
+        while k >= 0 and out[k].isspace():
+            k -= 1
+        if k < 0:
+            return j
+        c = out[k]
+        if c in ')]':
+            depth = 0
+            while k >= 0:
+                if mask[k]:
+                    if out[k] in ')]':
+                        depth += 1
+                    elif out[k] in '([':
+                        depth -= 1
+                        if depth == 0:
+                            break
+                k -= 1
+            j = k
+            continue
+        if c.isalnum() or c == '_':
+            while k >= 0 and (out[k].isalnum() or out[k] == '_'):
+                k -= 1
+            word = out[k + 1:j].strip()
+            if word in _RUST_KW_EXPR:
+                return j
+            j = k + 1
+            # a preceding `.` or `::` continues the receiver
+            q = j - 1
+            while q >= 0 and out[q].isspace():
+                q -= 1
+            if q >= 0 and out[q] == '.' and (q == 0 or out[q - 1] != '.'):
+                j = q
+                continue
+            if q >= 1 and out[q - 1:q + 1] == '::':
+                j = q - 1
+                continue
+            return j
+        return j
+
+
+_RUST_KW_EXPR = set('as break else if in let match mut ref return while for loop move'.split())
+
+
+def _split_top_commas(s):
+    parts = []
+    depth = 0
+    last = 0
+    bars = 0
+    for i, c in enumerate(s):
+        if c in '([{':
+            depth += 1
+        elif c in ')]}':
+            depth -= 1
+        elif c == ',' and depth == 0 and bars % 2 == 0:
+            parts.append(s[last:i])
+            last = i + 1
+        elif c == '|' and depth == 0 and s[i:i + 2] != '||' and (i == 0 or s[i - 1] != '|'):
+            bars += 1
+    parts.append(s[last:])
+    return parts
+
+
+def rule_R22_fold(text, log):
+    """`RECV.iter().fold(INIT, |ACC, PAT| BODY)`  ->  `{ let mut ACC = INIT; for PAT in RECV.iter() { ACC = BODY; } ACC }`
+    (definition of Iterator::fold for a closure that returns the new accumulator)"""
+    out = text
+    rx = re.compile(r'\.\s*iter\(\)\s*\.\s*fold\s*\(')
+    while True:
+        mask = code_mask(out)
+        mm = next((m for m in rx.finditer(out) if mask[m.start()]), None)
+        if not mm:
+            return out
+        op = mm.end() - 1
+        cl = match_brace(out, mask, op)
+        args = out[op + 1:cl]
+        c0 = None
+        depth = 0
+        for i, c in enumerate(args):
+            if c in '([{':
+                depth += 1
+            elif c in ')]}':
+                depth -= 1
+            elif c == ',' and depth == 0:
+                c0 = i
+                break
+        if c0 is None:
+            raise Unsupported('R22: fold without two arguments')
+        init = args[:c0].strip()
+        clo = args[c0 + 1:].strip()
+        m2 = re.match(r'\|\s*([A-Za-z_]\w*)\s*,\s*', clo)
+        if not m2:
+            raise Unsupported('R22: fold closure shape')
+        acc = m2.group(1)
+        j = m2.end()
+        depth = 0
+        while j < len(clo):
+            c = clo[j]
+            if c in '([':
+                depth += 1
+            elif c in ')]':
+                depth -= 1
+            elif c == '|' and depth == 0:
+                break
+            j += 1
+        pat = clo[m2.end():j].strip()
+        body = clo[j + 1:].strip()
+        rs = _recv_start(out, mask, mm.start())
+        recv = out[rs:mm.start()]
+        recv_n = re.sub(r'\s*\.\s*', '.', norm_ws(recv))
+        new = '{ let mut %s = %s; for %s in %s.iter() { %s = %s; } %s }' % (acc, init, pat, recv_n, acc, body, acc)
+        pad = '\n' * (out[rs:cl + 1].count('\n') - new.count('\n'))
+        log.append(('R22', norm_ws(out[rs:cl + 1])[:120], norm_ws(new)[:160]))
+        out = out[:rs] + new + pad + out[cl + 1:]
+
+
+def rule_R23_map_or(text, log):
+    """`OPT.map_or(D, |P| B)` -> `(match OPT { Some(P) => B, None => D })`;  `OPT.map_or(D, path::f)` -> `(match OPT { Some(vx_m) => path::f(vx_m), None => D })`
+    (definition of Option::map_or; D is a literal or a plain path, so evaluating it lazily changes nothing)"""
+    out = text
+    rx = re.compile(r'\.\s*map_or\s*\(')
+    pos = 0
+    while True:
+        mask = code_mask(out)
+        mm = next((m for m in rx.finditer(out) if m.start() >= pos and mask[m.start()]), None)
+        if not mm:
+            return out
+        op = mm.end() - 1
+        cl = match_brace(out, mask, op)
+        args = out[op + 1:cl]
+        c0 = None
+        depth = 0
+        for i, c in enumerate(args):
+            if c in '([{':
+                depth += 1
+            elif c in ')]}':
+                depth -= 1
+            elif c == ',' and depth == 0:
+                c0 = i
+                break
+        if c0 is None:
+            raise Unsupported('R23: map_or without two arguments')
+        dflt = args[:c0].strip()
+        if not re.match(r'^(?:\d[\w]*|true|false|[A-Za-z_][\w:.]*)$', dflt):
+            raise Unsupported('R23: map_or default is not a literal or a path: ' + dflt[:40])
+        f = args[c0 + 1:].strip().rstrip(',').strip()
+        m2 = re.match(r'\|\s*([^|]+?)\s*\|\s*', f)
+        rs = _recv_start(out, mask, mm.start())
+        recv = out[rs:mm.start()]
+        if m2:
+            new = '(match %s { Some(%s) => %s, None => %s })' % (recv, m2.group(1), f[m2.end():], dflt)
+        elif re.match(r'^[A-Za-z_][\w:]*$', f):
+            new = '(match %s { Some(vx_m) => %s(vx_m), None => %s })' % (recv, f, dflt)
+        else:
+            raise Unsupported('R23: map_or function shape')
+        pad = '\n' * (out[rs:cl + 1].count('\n') - new.count('\n'))
+        log.append(('R23', norm_ws(out[rs:cl + 1])[:120], norm_ws(new)[:160]))
+        out = out[:rs] + new + max(0, len(pad)) * '\n' + out[cl + 1:]
+        pos = rs + 1
+
+
+
 def rule_R5_labelled_for(text, log):
     """'l: for _ in 0..n { B }  ->  { let mut vx_i: usize = 0; 'l: while vx_i < n { vx_i += 1; B } }
     only for the shape `'l: for _ in 0..<ident> {` (counter unused)"""
@@ -666,7 +832,7 @@ class Unit(object):
         self.cells = {}             # type -> [fields]
         self.lost_aids = []
         self.late_hints = False
-        self.rules = set(['R1', 'R2', 'ATTR', 'R4', 'R5', 'R6', 'R10', 'R11', 'R14', 'R15', 'R17'])
+        self.rules = set(['R1', 'R2', 'ATTR', 'R4', 'R5', 'R6', 'R10', 'R11', 'R14', 'R15', 'R17', 'R22', 'R23'])
         self.unit_props = []
         self.lemmas = []
         self.tmpl_fns = []          # hand-written exec/proof fns in template (name, props)
@@ -729,6 +895,10 @@ class Unit(object):
                 text = rule_R18_slice_iter_cursor(text, log)
             if 'R19' in self.rules:
                 text = rule_R19_enumerate(text, log)
+            if 'R22' in self.rules:
+                text = rule_R22_fold(text, log)
+            if 'R23' in self.rules:
+                text = rule_R23_map_or(text, log)
         self.last_guard_renames = [r[3] for r in log if len(r) > 3]
         for r in log:
             self.rule_log.append({'rule': r[0], 'before': r[1], 'after': r[2], 'where': ctx})
